@@ -96,7 +96,7 @@ func damageImage(t *rt.Tape, r *rt.Run, ms []*arMember, img []byte) ([]byte, str
 	case "collide":
 		// a second control.* / data.* member under a colliding name
 		ns := cloneMembers(ms)
-		names := []string{"control.tar", "control.tar.gz", "data.tar", "data.tar.gz", "control.tar.xz", "debian-binary"}
+		names := []string{"control.tar", "control.tar.gz", "data.tar", "data.tar.gz", "control.tar.xz", "debian-binary", "control.sig", "control.md5", "control.", "data.img", "data.cpio.gz"}
 		extra := &arMember{RawName: names[t.Draw(len(names), "dmg.name")], Mode: "100644", Data: t.Sub("dmg.data").Bytes(t.Range(0, 80, "dmg.len"))}
 		extra.Name = extra.RawName
 		pos := t.Draw(len(ns)+1, "dmg.pos")
